@@ -40,6 +40,7 @@ func runHistory(w *bufio.Writer, id int, profile string, seed uint64, nOps int, 
 			o = g.SafeNext()
 		}
 		nx, nt := len(e.xfers), len(e.trace)
+		e.order = e.order[:0]
 		e.ctx = e.ctx.WithEventManager(sdk.NewEventManager())
 		pre, res, post := e.Exec(o)
 		evh := sha256.New()
@@ -65,6 +66,9 @@ func runHistory(w *bufio.Writer, id int, profile string, seed uint64, nOps int, 
 		}
 		for _, l := range post {
 			fmt.Fprintln(w, l)
+		}
+		if len(e.order) > 0 && (res.Class == "blockok" || res.Class == "ok") {
+			fmt.Fprintf(w, "ORDER %s\n", strings.Join(e.order, " "))
 		}
 		fmt.Fprintf(w, "EVH n=%d h=%x\n", nev, evh.Sum(nil)[:8])
 		for _, l := range e.Dump() {
